@@ -21,6 +21,29 @@ def sh(cmd, cwd, timeout=1800):
     p = subprocess.run(cmd, shell=True, cwd=cwd, env=ENV, capture_output=True, text=True, timeout=timeout)
     return p.returncode, (p.stdout + p.stderr)
 
+def recheck(m):
+    """Re-runs only the checks against an already confirmed mutant and refreshes meta.json."""
+    mid = m["id"]
+    dest = f"/verif/seeded/{mid}"
+    meta = json.load(open(os.path.join(dest, "meta.json")))
+    if not meta.get("confirmed"):
+        print(f"{mid}: not confirmed, skipping")
+        return
+    shutil.copy(os.path.join(m["src"], "patch.diff"), os.path.join(dest, "patch.diff"))
+    hist = meta.setdefault("earlier_verdicts", [])
+    hist.append({k: v.get("verdict_line", "") for k, v in meta.get("checks", {}).items()})
+    meta["checks"] = {}
+    for chk in m.get("checks", [m["property"]]):
+        p = subprocess.run(f"/verif/tools/trymut.sh {mid.lower()}-{chk.lower()} {dest}/patch.diff {chk}", shell=True,
+                           capture_output=True, text=True, env=ENV, timeout=7200)
+        out = p.stdout + p.stderr
+        exitline = [l for l in out.splitlines() if l.startswith("== ")]
+        meta["checks"][chk] = {"verdict_line": exitline[0] if exitline else "", "output_tail": out[-1500:]}
+    json.dump(meta, open(os.path.join(dest, "meta.json"), "w"), indent=1)
+    caught = {k: ("exit=1" in v["verdict_line"]) for k, v in meta["checks"].items()}
+    print(f"{mid}: recheck caught={caught}", flush=True)
+
+
 def confirm(m):
     mid = m["id"]
     wt = f"/tmp/cm-{mid.lower()}"
@@ -102,9 +125,12 @@ def confirm(m):
     print(f"{mid}: confirmed={meta.get('confirmed')} demo_clean={meta['steps'].get('demo_clean_exit')} demo_patched={meta['steps'].get('demo_patched_exit')} suite_extra_fail={len(meta['steps'].get('suite_failures_beyond_offline_playground', []))} caught={caught}", flush=True)
 
 if __name__ == "__main__":
-    spec = json.load(open(sys.argv[1]))
-    want = set(sys.argv[2:])
+    args = sys.argv[1:]
+    re = "--recheck" in args
+    args = [a for a in args if a != "--recheck"]
+    spec = json.load(open(args[0]))
+    want = set(args[1:])
     for m in spec:
         if want and m["id"] not in want:
             continue
-        confirm(m)
+        (recheck if re else confirm)(m)
